@@ -214,3 +214,27 @@ def switch_arms(sw):
         i += 1
     # merge labels that start at the same statement list position: items with labels each produce own arm
     return arms
+
+
+def no_runtime_statics(F, R, rid, files, what, min_instances=1):
+    """statelessness: every variable with static or thread storage duration defined in `files` (namespace scope or function
+    local) is a constant that does not depend on run-time data -- a memo/cache keyed on less than all inputs, or a value
+    frozen at first use, makes a function's result depend on the call history"""
+    R.rule(rid, "the %s keep no writable or run-time initialised static / thread-local storage: every such variable is a "
+                "compile-time style constant, so a function value depends on the arguments only (not on earlier calls)" % what,
+           min_instances)
+    for key, g in sorted(F.globals.items()):
+        if g["file"] not in files:
+            continue
+        ini = g.get("init")
+        bad = None
+        if ini is not None:
+            for n in walk(ini):
+                if (n.get("k") == "DeclRefExpr" and n.get("rk") in ("Param", "Var")) or n.get("k") == "CXXThisExpr":
+                    bad = n
+                    break
+        ok = bad is None and (g.get("const") or g.get("constexpr") or str(g.get("t")).startswith("const "))
+        R.check(rid, bool(ok), "%s is a compile-time style constant" % g["name"].split("::")[-1], "%s:%s" % (g["file"], g["line"]),
+                "`%s` has static/thread storage and %s: results depend on what was evaluated before"
+                % (g["name"].split("::")[-1], ("is initialised from run-time data (%s)" % bad.get("n")) if bad else "is writable"),
+                key="%s|%s" % (rid, g["name"]))
